@@ -175,7 +175,7 @@ fn run_interp<M: AlignMarker>(desc: &RunDesc) -> ! {
     sh.block_size = circ::verif::block_layout::<Node<M>>().0;
     sh.ebr.enable(sh.global_epoch_addr);
     match desc.family.as_str() {
-        "rc-cells" => sh.strong_extra = ",C08",
+        "rc-cells" | "dir-c" => sh.strong_extra = ",C08",
         "rc-wcells" | "dir-w" => sh.weak_extra = ",C09",
         "tls" | "ebr-churn" => sh.leak_extra = ",C20",
         _ => {}
